@@ -10,6 +10,8 @@ fac <F> <cfg>          -> [events] r=ok|err:E|stuck k=N | [events] r=panic
                                         (new_service(cfg) driven to completion;
                                          on ok the built service becomes the current service)
 ready                  -> [events] r=pending|ok|err:E k=N   (one poll_ready, fresh waker)
+reset <id> <rp> ok|err -> ok            (leaf <id> of the current service starts a new readiness round:
+                                         Pending^rp, then Ready(Ok)|Ready(Err) for ever)
 call <req>             -> [events] r=ok:V|err:E|stuck k=N | [events] r=panic
                                         (call + drive, fresh waker per poll)
 ```
@@ -271,6 +273,11 @@ def step (st : State) (line : String) : State × String :=
     | some s =>
       let (s', r, l) := pollReady s st.w
       ({ svc := some s', w := st.w + 1 }, render l (match r with | .pending => "pending" | r => rdyStr r))
+  | ["reset", i, rp, rok] =>
+    match st.svc, num i, num rp, okErr rok with
+    | some s, some i, some rp, some rok =>
+      if i ∈ svcLeafIds s then ({ st with svc := some (rescript s i rp rok) }, "ok") else (st, "bad-op")
+    | _, _, _, _ => (st, "bad-op")
   | ["call", req] =>
     match st.svc, num req with
     | some s, some req =>
